@@ -617,6 +617,9 @@ func (S *sidesInfo) itemLink(v ssa.Value) (item ssa.Value, ok bool) {
 // popOf: item is the result of a call that takes (the address of) a stack
 // slot and returns an item; returns that slot.
 func (S *sidesInfo) popOf(item ssa.Value) (*ssa.Call, *sdSlot) {
+	if ex, isEx := item.(*ssa.Extract); isEx {
+		return S.popOfExtract(ex)
+	}
 	call, ok := item.(*ssa.Call)
 	if !ok {
 		return nil, nil
@@ -634,6 +637,72 @@ func (S *sidesInfo) popOf(item ssa.Value) (*ssa.Call, *sdSlot) {
 		}
 	}
 	return nil, nil
+}
+
+// popOfExtract: ex is one component of the result of a (monomorphic) helper
+// of the diff that returns several values, and on every return of the helper
+// that component is the result of a pop of one and the same stack slot
+// (`o, n := dc.popPair()`). Returns the call of the helper (the point at
+// which the pop happens in the caller) and the slot.
+func (S *sidesInfo) popOfExtract(ex *ssa.Extract) (*ssa.Call, *sdSlot) {
+	call, ok := ex.Tuple.(*ssa.Call)
+	if !ok {
+		return nil, nil
+	}
+	if n, _ := sdNamedStruct(ex.Type()); n == nil || S.itemT == nil || n.Obj() != S.itemT.Obj() {
+		return nil, nil
+	}
+	callee := ir.Callee(call.Call)
+	if callee == nil || !S.slice[callee] || S.poly[callee] {
+		return nil, nil
+	}
+	rets := ir.Returns(callee)
+	if len(rets) == 0 {
+		return nil, nil
+	}
+	var slot *sdSlot
+	for _, r := range rets {
+		if ex.Index >= len(r.Results) {
+			return nil, nil
+		}
+		inner, isCall := ir.ResolveCell(r.Results[ex.Index]).(*ssa.Call)
+		if !isCall {
+			return nil, nil
+		}
+		pc, sl := S.popOf(inner)
+		if pc == nil || (slot != nil && sl != slot) {
+			return nil, nil
+		}
+		slot = sl
+	}
+	return call, slot
+}
+
+// popHelperItems: call is a call of a helper that returns several values some
+// of which are popped items (popOfExtract). Returns those components and the
+// pops the helper performs (all of them, returned or not).
+func (S *sidesInfo) popHelperItems(call *ssa.Call) (items []*ssa.Extract, inner []*sdSlot) {
+	if _, isTuple := call.Type().(*types.Tuple); !isTuple || call.Referrers() == nil {
+		return nil, nil
+	}
+	for _, r := range *call.Referrers() {
+		if ex, ok := r.(*ssa.Extract); ok {
+			if pc, _ := S.popOfExtract(ex); pc != nil {
+				items = append(items, ex)
+			}
+		}
+	}
+	if len(items) == 0 {
+		return nil, nil
+	}
+	for _, ci := range CallsOf(ir.Callee(call.Call)) {
+		if ic, ok := ci.(*ssa.Call); ok {
+			if pc, sl := S.popOf(ic); pc != nil {
+				inner = append(inner, sl)
+			}
+		}
+	}
+	return items, inner
 }
 
 type lpVerdict struct {
@@ -2290,11 +2359,49 @@ func lpCallNameOf(call *ssa.Call) string {
 // ---- DIFFREADS --------------------------------------------------------------------
 
 // stepItems finds the items popped from the OLD and the NEW stack in the step.
-func stepItems(S *sidesInfo, fn *ssa.Function) (oldItem, newItem *ssa.Call, stacks map[*sdSlot]bool, ok bool) {
+func stepItems(S *sidesInfo, fn *ssa.Function) (oldItem, newItem ssa.Value, stacks map[*sdSlot]bool, ok bool) {
 	stacks = map[*sdSlot]bool{}
 	for _, ci := range CallsOf(fn) {
 		call, isCall := ci.(*ssa.Call)
 		if !isCall {
+			continue
+		}
+		// a helper that pops and returns the items (o, n := dc.popPair()):
+		// every pop it performs counts, each must come back as an item
+		if items, inner := S.popHelperItems(call); len(items) > 0 {
+			nOld, nNew := 0, 0
+			for _, sl := range inner {
+				stacks[sl] = true
+				switch sl.cur {
+				case sdOld:
+					nOld++
+				case sdNew:
+					nNew++
+				}
+			}
+			if nOld > 1 || nNew > 1 {
+				return nil, nil, nil, false
+			}
+			for _, ex := range items {
+				_, sl := S.popOfExtract(ex)
+				switch sl.cur {
+				case sdOld:
+					if oldItem != nil {
+						return nil, nil, nil, false
+					}
+					oldItem = ex
+					nOld--
+				case sdNew:
+					if newItem != nil {
+						return nil, nil, nil, false
+					}
+					newItem = ex
+					nNew--
+				}
+			}
+			if nOld != 0 || nNew != 0 {
+				return nil, nil, nil, false // a pop of the helper whose item is dropped
+			}
 			continue
 		}
 		pc, sl := S.popOf(call)
